@@ -101,6 +101,8 @@ Verdict(ev) ==
             ELSE IF TotalsOf(ev.r2) # TotalsOf(ev.r) THEN "permute-totals"
             ELSE IF ~SameUpToOrder(PresTaxes(ev.r2.taxes), PresTaxes(ev.r.taxes)) THEN "permute-taxes"
             ELSE "ok"
+      \* converting into another currency yields a new document; the converted one keeps its figures
+      [] ev.k = "convert" -> IF ev.r2 # ev.r THEN "convert-alters-original" ELSE "ok"
       [] ev.k = "removeinc" ->
             IF ~ev.ok2 THEN "removeinc-refused"
             ELSE IF ev.r2.payable # ev.r.twt THEN "removeinc-payable"
